@@ -19,6 +19,8 @@ import (
 	"strings"
 	"sync"
 	"time"
+
+	"golang.org/x/tools/go/ssa"
 )
 
 const (
@@ -35,6 +37,40 @@ type Cmd struct {
 	text string // full SMT command for decl/def/assume; goal term for cOblig
 	ob   *Obligation
 	syms []string // axioms: included when one of these symbols is needed
+	blk  *ssa.BasicBlock // block of the function under verification at which a path-guarded assumption was made (nil: global fact)
+}
+
+// can control reach block b from block a (a == b included)?  Memoised per source block.
+var blockReachMemo = map[*ssa.BasicBlock]map[*ssa.BasicBlock]bool{}
+var blockReachMu sync.Mutex
+var reachSlice = os.Getenv("VERIF_REACHSLICE") != ""
+
+func blockReaches(a, b *ssa.BasicBlock) bool {
+	if a == b {
+		return true
+	}
+	if a.Parent() != b.Parent() {
+		return true // different functions: no claim
+	}
+	blockReachMu.Lock() // queries are rendered from several goroutines
+	defer blockReachMu.Unlock()
+	r, ok := blockReachMemo[a]
+	if !ok {
+		r = map[*ssa.BasicBlock]bool{a: true}
+		work := []*ssa.BasicBlock{a}
+		for len(work) > 0 {
+			x := work[len(work)-1]
+			work = work[:len(work)-1]
+			for _, s := range x.Succs {
+				if !r[s] {
+					r[s] = true
+					work = append(work, s)
+				}
+			}
+		}
+		blockReachMemo[a] = r
+	}
+	return r[b]
 }
 
 type Obligation struct {
@@ -51,6 +87,7 @@ type Obligation struct {
 	ModelTag map[string]string // term -> role label for replay
 	Alts     []string          // vacuity: alternative goals, any one of which suffices
 	NoAx     bool              // vacuity retry: leave out the quantified background axioms (weaker check, noted in Solver)
+	blk      *ssa.BasicBlock   // block of the function under verification where the obligation arises (nil: after the run)
 	Clause   ast.Expr          // the contract clause (conjunct) behind a post obligation, for replay
 	ClausePkg string
 	idx      int               // position in script
@@ -70,6 +107,7 @@ type Script struct {
 	nfresh  int
 	obs     []*Obligation
 	bytes   int
+	curBlk  *ssa.BasicBlock // block of the function under verification being executed (nil outside the run)
 }
 
 func newScript() *Script {
@@ -150,10 +188,22 @@ func (s *Script) assume(body string) {
 	s.grow(len(body))
 }
 
+// a path-guarded assumption made while the function under verification is at block s.curBlk: a
+// standalone query for an obligation at a block that this block cannot reach leaves it out (no
+// execution passes through both, so the guard is false wherever the obligation's is true)
+func (s *Script) assumeAt(body string) {
+	if body == "true" {
+		return
+	}
+	s.cmds = append(s.cmds, Cmd{kind: cAssume, text: fmt.Sprintf("(assert %s)", body), blk: s.curBlk})
+	s.grow(len(body))
+}
+
 func (s *Script) oblige(ob *Obligation) {
 	ob.idx = len(s.cmds)
 	ob.script = s
-	s.cmds = append(s.cmds, Cmd{kind: cOblig, text: ob.Goal, ob: ob})
+	ob.blk = s.curBlk
+	s.cmds = append(s.cmds, Cmd{kind: cOblig, text: ob.Goal, ob: ob, blk: s.curBlk})
 	s.obs = append(s.obs, ob)
 }
 
@@ -353,6 +403,11 @@ func (s *Script) render(ob *Obligation, extra []string, getValues []string) stri
 	include := make([]bool, len(prefix))
 	for i := len(prefix) - 1; i >= 0; i-- {
 		c := prefix[i]
+		if reachSlice && c.blk != nil && ob.blk != nil && !ob.Cover && (c.kind == cAssume || c.kind == cOblig) && !blockReaches(c.blk, ob.blk) {
+			// (experimental, off by default: some facts that later blocks rely on are emitted once, at
+			// the block that first needs them, so dropping by block loses proofs)
+			continue // made on a path that cannot lead to this obligation
+		}
 		switch c.kind {
 		case cAssume:
 			if ob.Cover && (strings.Contains(c.text, "(forall ") || strings.Contains(c.text, "(exists ")) {
